@@ -140,107 +140,84 @@ def find_diag_store(ctx):
 
 
 def check_weights(ctx, ck):
+    """R-SIB.weight on the symbolic weights model (_weights.py)"""
+    from ._weights import rhs_model, load_model, doubled, grounded, carried_weight_names, RHS as RHS_Q, LOADS as LOADS_Q
+    from ..poly import cancel, Poly
     m = ctx.model
-    f, fl, store, st, jd, _idx = find_diag_store(ctx)
-    def is_imp(tx):
-        return '.impedance(' in tx
-    l_alts = split_weight(weight_alternatives(fl, fl.inline(st.value, store.id, depth=1)
-                                              if any(isinstance(x_, ast.Name) and fl.single_def(x_.id, store.id)
-                                                     and isinstance(fl.single_def(x_.id, store.id)[0], ast.Call)
-                                                     for x_ in ast.walk(st.value) if isinstance(x_, ast.Name)
-                                                     and x_.id in fl.rd.names)
-                                              else st.value, store.id), is_imp)
-    g = m.func(RHS)
-    gfl = ctx.flow(g)
-    rstores = [n for n in gfl.cfg.nodes if n.kind == 'stmt' and isinstance(n.stmt, (ast.Assign, ast.AugAssign))
-               and isinstance((n.stmt.targets[0] if isinstance(n.stmt, ast.Assign) else n.stmt.target),
-                              ast.Subscript)]
-    if len(rstores) != 1:
-        raise AnalysisError('compute_rhs: expected one element store, found %d' % len(rstores))
-    r_alts = split_weight(weight_alternatives(gfl, rstores[0].stmt.value, rstores[0].id),
-                          lambda tx: tx.endswith('.voltage'))
-
-    # every definition of a weight factor that reaches the store lies in the same (innermost)
-    # loop body as the store: the weight is recomputed for every element and cannot carry the
-    # doubling of a previous (grounded) element over to the next one
-    def stale_defs(fl_, store_node):
-        from ..model import parent as _parent
-        st_ = store_node.stmt
-        lp = _parent(st_)
-        while lp is not None and not isinstance(lp, (ast.For, ast.While)):
-            lp = _parent(lp)
-        if lp is None:
-            return []
-        body_ids = fl_.cfg.loops[fl_.cfg.node_of(lp)][0]
-        out = []
-        pr_ = product_of(st_.value)
-        for t_, x_ in pr_.num + pr_.den:
-            if isinstance(x_, ast.Name) and x_.id in fl_.rd.names:
-                for d_ in fl_.def_exprs(x_.id, store_node.id):
-                    if d_[0] in ('assign', 'aug') and d_[2] not in body_ids:
-                        out.append((x_.id, d_[2]))
-        return out
-    for who, fl_, node_ in (('load', fl, store), ('source', gfl, rstores[0])):
-        bad_ = stale_defs(fl_, node_)
-        ck.ob('R-SIB.weight', 'weight-per-element|%s' % who, not bad_, (f if who == 'load' else g).loc(node_.stmt),
+    f, lents, lpaths = load_model(ctx)
+    g, rents, rfinals, rpaths = rhs_model(ctx)
+    if not lents:
+        raise AnalysisError('compute_impedance_matrix_loads: no store into self.Z found on the symbolic paths')
+    if not rents:
+        raise AnalysisError('compute_rhs: no element store found on the symbolic paths')
+    # the weight is recomputed for every element: it cannot carry the doubling of a previous
+    # (grounded) element over to the next one
+    for who, q_, fn_ in (('load', LOADS_Q, f), ('source', RHS_Q, g)):
+        bad_ = carried_weight_names(ctx, q_)
+        ck.ob('R-SIB.weight', 'weight-per-element|%s' % who, not bad_, bad_[0][0].loc(bad_[0][2]) if bad_ else fn_.loc(),
               'the %s weight is initialised inside the loop over the elements' % who if not bad_ else
               'weight factor %s is initialised outside the loop: the doubling for a grounded pulse leaks '
-              'into the following elements' % sorted({b[0] for b in bad_}))
+              'into the following elements' % sorted({b[1] for b in bad_}))
+    probs = sorted({p_ for e_ in lents + rents for p_ in e_.problems})
 
-    def summarize(alts):
-        """(base alternatives, doubled alternatives): the doubled one carries a guard whose taken
-        branch tests `.ground.any()`; everything else is the base weight"""
-        dbl = [a for a in alts if any(b and '.ground.any()' in t for t, b in a[3])]
-        base = [a for a in alts if a not in dbl]
+    def classes(ents):
+        base = {repr(e_.weight) for e_ in ents if e_.weight is not None and not doubled(e_.conds)}
+        dbl = {repr(e_.weight) for e_ in ents if e_.weight is not None and doubled(e_.conds)}
         return base, dbl
-    lb, ld = summarize(l_alts)
-    rb, rd = summarize(r_alts)
-    ok = len(lb) == 1 and len(rb) == 1 and len(ld) == 1 and len(rd) == 1
-    why = 'load weights %s ; source weights %s' % (l_alts, r_alts)
-    if ok:
-        same_base = abs(lb[0][0] - rb[0][0]) < 1e-12 and lb[0][1] == rb[0][1] and lb[0][2] == rb[0][2]
-        ck.ob('R-SIB.weight', 'base-weight', same_base, f.loc(st),
-              'load weight %r*%s/%s vs source weight %r*%s/%s' % (
-                  lb[0][0], list(lb[0][1]), list(lb[0][2]), rb[0][0], list(rb[0][1]), list(rb[0][2])))
-        dl = ld[0][0] / lb[0][0]
-        dr = rd[0][0] / rb[0][0]
-        ck.ob('R-SIB.weight', 'grounded-factor', abs(dl - 2) < 1e-12 and abs(dr - 2) < 1e-12 and
-              ld[0][1:3] == lb[0][1:3] and rd[0][1:3] == rb[0][1:3], f.loc(st),
-              'grounded pulse: load x%s, source x%s' % (dl, dr))
-        # guards: "any half of the pulse is grounded" on the loaded / excited pulse
-        gl = [t for t, b in ld[0][3] if b]
-        gr = [t for t, b in rd[0][3] if b]
-
-        def norm_guard(txts):
-            out = []
-            for t in txts:
-                for part in t.split(' and '):
-                    part = part.strip()
-                    if part in ('self.media is not None',):
-                        continue
-                    out.append(part)
-            return out
-        gln, grn = norm_guard(gl), norm_guard(gr)
-        okg = len(gln) == 1 and len(grn) == 1 and gln[0].endswith('.ground.any()') and \
-            grn[0].endswith('.ground.any()')
-        ck.ob('R-SIB.weight', 'grounded-guard', okg, f.loc(st),
-              'doubling guards: load `%s`, source `%s`' % (gl, gr))
-        # the guarded pulse is the loaded / excited one
-        if okg:
-            lp = gln[0][:-len('.ground.any()')]
-            rp = grn[0][:-len('.ground.any()')]
-            pulse_var = norm(jd[0].value) if jd else '?'
-            okp = lp == pulse_var and rp.startswith('self.pulses[') and rp.endswith('.idx]')
-            ck.ob('R-SIB.weight', 'grounded-guard-pulse', okp, f.loc(st),
-                  'load guard tests %s (loaded pulse %s); source guard tests %s' % (lp, pulse_var, rp))
+    lb, ld = classes(lents)
+    rb, rd = classes(rents)
+    where = f.loc(lents[0].stmt)
+    ok = not probs and len(lb) == 1 and len(rb) == 1 and len(ld) == 1 and len(rd) == 1
+    if not ok:
+        ck.ob('R-SIB.weight', 'base-weight', False, where,
+              'load weights %s / doubled %s ; source weights %s / doubled %s %s' % (sorted(lb), sorted(ld), sorted(rb), sorted(rd), probs[:2]))
     else:
-        ck.ob('R-SIB.weight', 'base-weight', False, f.loc(st), why)
-    # the payload is l.impedance(self.f, pulse)
-    imp_calls = [c for c in ast.walk(fl.inline(st.value, store.id)) if isinstance(c, ast.Call) and
-                 isinstance(c.func, ast.Attribute) and c.func.attr == 'impedance']
-    ok = len(imp_calls) == 1 and [norm(a) for a in imp_calls[0].args] == ['self.f', norm(jd[0].value) if jd else '?']
-    ck.ob('R-SIB.weight', 'payload', ok, f.loc(st), 'adds %s' % (norm(imp_calls[0]) if imp_calls else '?'))
-
+        ck.ob('R-SIB.weight', 'base-weight', lb == rb, where,
+              'load weight %s vs source weight %s' % (sorted(lb)[0], sorted(rb)[0]))
+        wl = [e_.weight for e_ in lents if e_.weight is not None]
+        bl = [e_.weight for e_ in lents if e_.weight is not None and not doubled(e_.conds)][0]
+        dl_ = [e_.weight for e_ in lents if e_.weight is not None and doubled(e_.conds)][0]
+        br = [e_.weight for e_ in rents if e_.weight is not None and not doubled(e_.conds)][0]
+        dr_ = [e_.weight for e_ in rents if e_.weight is not None and doubled(e_.conds)][0]
+        two = Poly.const(2)
+        okf = cancel(dl_ - bl * two).t == {} and cancel(dr_ - br * two).t == {}
+        ck.ob('R-SIB.weight', 'grounded-factor', okf, where,
+              'grounded pulse: load %r vs %r, source %r vs %r (factor 2 each)' % (dl_, bl, dr_, br))
+        # guards: "any half of the pulse is grounded" on the loaded / excited pulse
+        gl = sorted({(pt, t_) for e_ in lents if doubled(e_.conds) for pt, b_, t_ in grounded(e_.conds) if b_})
+        gr = sorted({(pt, t_) for e_ in rents if doubled(e_.conds) for pt, b_, t_ in grounded(e_.conds) if b_})
+        okg = len({pt for pt, t_ in gl}) == 1 and len({pt for pt, t_ in gr}) == 1
+        # apart from the ground test only `self.media is not None` may take part in the guard
+        for pt, t_ in gl + gr:
+            rest = [x_.strip() for x_ in t_.split(' and ') if not x_.strip().endswith('.ground.any()')]
+            okg = okg and all(x_ in ('self.media is not None',) for x_ in rest)
+        ck.ob('R-SIB.weight', 'grounded-guard', okg, where,
+              'doubling guards: load `%s`, source `%s`' % ([t_ for pt, t_ in gl], [t_ for pt, t_ in gr]))
+        if okg:
+            import re as _re
+            lp = gl[0][0]
+            rp = gr[0][0]
+            e0 = [e_ for e_ in lents if doubled(e_.conds)][0]
+            pulse_txt = norm(e0.payload.args[1]) if e0.payload is not None and len(e0.payload.args) > 1 else '?'
+            r0 = [e_ for e_ in rents if doubled(e_.conds)][0]
+            okp = lp == pulse_txt and rp == 'self.pulses[%s.idx]' % r0.source
+            ck.ob('R-SIB.weight', 'grounded-guard-pulse', okp, where,
+                  'load guard tests %s (loaded pulse %s); source guard tests %s (source %s)' % (lp, pulse_txt, rp, r0.source))
+    # the payload is <load>.impedance(self.f, <pulse of that load>)
+    ok = True
+    seen = set()
+    for e_ in lents:
+        pl = e_.payload
+        if pl is None:
+            ok = False
+            continue
+        recv = norm(pl.func.value)
+        args = [norm(a_) for a_ in pl.args]
+        seen.add('%s.impedance(%s)' % (recv, ', '.join(args)))
+        import re as _re
+        ok = ok and len(args) == 2 and args[0] == 'self.f' and _re.match(r'^self\.loads\[_k\d+\]$', recv) is not None \
+            and _re.match(r'^%s\.pulses\[_k\d+\]$' % _re.escape(recv), args[1]) is not None
+    ck.ob('R-SIB.weight', 'payload', ok, where, 'adds %s' % sorted(seen)[:1])
 
 
 def run(ctx, ck):
@@ -254,34 +231,42 @@ def run(ctx, ck):
     ck.rule('R-EXH.attach', 'attach-to-all touches each pulse once; load registered once')
 
     # ---------------------------------------------------------------- D1
-    f = m.func(LOADS)
-    fl = ctx.flow(f)
-    ls = [l for l in loops_in(f.node) if isinstance(l, ast.For)]
-    outer = [l for l in ls if norm(l.iter) == 'self.loads']
-    ck.floor('loops over self.loads', len(outer), 1)
-    f, fl, store, st, jd, idx = find_diag_store(ctx)
-    is_acc = isinstance(st, ast.AugAssign) and isinstance(st.op, ast.Add)
-    ck.ob('R-EXH.diagonal', LOADS + '|accumulates', is_acc, f.loc(st),
-          'loads are added to the matrix with += (several loads on a pulse add up)' if is_acc else
-          'the load term is stored with `%s`, not accumulated with +=' % norm(st)[:60])
-    ck.ob('R-EXH.diagonal', LOADS + '|diagonal-element', len(idx) == 2 and idx[0] == idx[1], f.loc(st),
-          'element Z[%s] is on the diagonal' % ', '.join(idx) if len(idx) == 2 and idx[0] == idx[1] else
-          'element Z[%s] is not a diagonal element' % ', '.join(idx))
-    for ol in outer:
-        inner = [l for l in loops_in(ol) if isinstance(l, ast.For)]
-        lv = ol.target.id if isinstance(ol.target, ast.Name) else '?'
-        full = [l for l in inner if norm(l.iter) == '%s.pulses' % lv]
-        ck.ob('R-EXH.diagonal', LOADS + '|loops', len(full) == 1, f.loc(ol),
-              'for every load, for every pulse of the load' if len(full) == 1 else
-              'inner loop iterates %s, not all pulses of the load' % [norm(l.iter) for l in inner])
-        for il in inner:
-            mn, mx = loop_reaches_on_all_paths(fl, il, lambda n: n is store)
-            ck.ob('R-EXH.diagonal', LOADS + '|one-add-per-pulse', (mn, mx) == (1, 1), f.loc(il),
-                  'matrix update per (load, pulse): min %s max %s' % (mn, mx))
-    jn = idx[0]
-    ok = jd is not None and isinstance(jd[0], ast.Attribute) and jd[0].attr == 'idx'
-    ck.ob('R-EXH.diagonal', LOADS + '|index=pulse.idx', ok, f.loc(st),
-          'diagonal index %s = %s' % (jn, norm(jd[0]) if jd else '?'))
+    # on the symbolic walk: every path through one (load, pulse) element stores exactly once into
+    # self.Z, on the diagonal element of the loaded pulse, accumulating
+    from ._weights import load_model
+    import re as _re
+    f, lents, lpaths = load_model(ctx)
+    ck.floor('stores into self.Z on the symbolic paths', len(lents), 1)
+    e0 = lents[0]
+    is_acc = all(e_.accumulates for e_ in lents)
+    ck.ob('R-EXH.diagonal', LOADS + '|accumulates', is_acc, f.loc(e0.stmt),
+          'loads are added to the matrix element (several loads on a pulse add up)' if is_acc else
+          'the load term is stored with `%s`, not accumulated' % norm([e_ for e_ in lents if not e_.accumulates][0].value)[:70])
+    diag = all(len(e_.index) == 2 and e_.index[0] == e_.index[1] for e_ in lents)
+    ck.ob('R-EXH.diagonal', LOADS + '|diagonal-element', diag, f.loc(e0.stmt),
+          'element Z[%s] is on the diagonal' % ', '.join(e0.index) if diag else
+          'element Z[%s] is not a diagonal element' % ', '.join([e_ for e_ in lents if len(e_.index) != 2 or e_.index[0] != e_.index[1]][0].index))
+    # iteration: every pulse of every load
+    its = set()
+    for p_ in lpaths:
+        its.add(tuple(_re.sub(r'_k\d+', '_k', t_) for k_, t_ in p_.conds if k_ == 'loop'))
+    flat = {x_ for it_ in its for x_ in it_}
+    full = ('self.loads' in flat and 'self.loads[_k].pulses' in flat) or any(
+        'self.loads' in x_ and '.pulses' in x_ and '_each' in x_ for x_ in flat)
+    ck.ob('R-EXH.diagonal', LOADS + '|loops', full, f.loc(),
+          'for every load, for every pulse of the load' if full else 'iterates %s, not all pulses of all loads' % sorted(flat))
+    counts = set()
+    for p_ in lpaths:
+        ent = [t_ for k_, t_ in p_.conds if k_ == 'loop']
+        skp = [t_ for k_, t_ in p_.conds if k_ == 'loop-skipped']
+        n_ = sum(1 for ev in p_.events if ev[0] == 'store' and ev[1].startswith('self.Z['))
+        inner_entered = len(ent) >= 2 or any('_each' in t_ for t_ in ent)
+        if inner_entered:
+            counts.add(n_)
+    ck.ob('R-EXH.diagonal', LOADS + '|one-add-per-pulse', counts == {1}, f.loc(),
+          'matrix updates per (load, pulse) on the paths through one element: %s' % sorted(counts))
+    okj = all(_re.match(r'^self\.loads\[_k\d+\]\.pulses\[_k\d+\]\.idx$', e_.index[0] or '') for e_ in lents if e_.index)
+    ck.ob('R-EXH.diagonal', LOADS + '|index=pulse.idx', okj, f.loc(e0.stmt), 'diagonal index = %s' % (e0.index[0] if e0.index else '?'))
 
     check_weights(ctx, ck)
 
